@@ -80,7 +80,21 @@ def _install_line_coverage(outdir):
     mon.set_events(tool, mon.events.LINE)
 
 
+def _private_tmp():
+    """one scratch directory per run, created before the worker pool forks and removed when the main process exits: the workers'
+    own temporary directories (TIFFs, dumps) are created inside it (forked pool workers leave through os._exit and never run their
+    atexit handlers, so directories they create directly under /tmp would stay behind)"""
+    import atexit
+    import shutil
+    import tempfile
+    base = tempfile.mkdtemp(prefix="fsmc_run_")
+    tempfile.tempdir = base
+    os.environ["TMPDIR"] = base
+    atexit.register(shutil.rmtree, base, True)
+
+
 def main(argv):
+    _private_tmp()
     if os.environ.get("VERIF_FUNCCOV"):
         _install_function_coverage(os.environ["VERIF_FUNCCOV"])
     if os.environ.get("VERIF_LINECOV"):
